@@ -25,7 +25,8 @@ def mix(*weighted):
 def crowd(kw, **extra):
     """several sub-array observations falling due together on a cluster with a generous ingest limit:
     simultaneous ingests, same-step starts, machines contended between ingest and workflows"""
-    a = dict(min_obs=2, start_gaps=(0, 0, 0, 1, 2, 3), overlap=True, modes=('roomy',), max_duration=8, unsorted='maybe')
+    a = dict(min_obs=2, start_gaps=(0, 0, 0, 1, 2, 3), overlap=True, modes=('roomy',), max_duration=8, unsorted='maybe',
+             long_durations=True)
     a.update(kw)
     a.update(extra)
     return scenarios(**a)
@@ -152,7 +153,8 @@ class C05(SimSpec):
         crowd2 = scenarios(min_obs=3, start_gaps=(0, 0, 1), few_machines=True, **kw)
         probe = scenarios(modes=('tiering',), **kw)
         return mix((3, main), (2, crowd), (1, crowd2), (1, limited(kw, delays=True)), (2, tight(kw)),
-                   (1, scenarios(unsorted=True, min_obs=2, delays=True, **kw)), (1, probe))
+                   (1, scenarios(unsorted=True, min_obs=2, delays=True, **kw)),
+                   (1, scenarios(modes=('bandov',), delays=True, **kw)), (1, probe))
 
     def sig(self, v, tr):
         if tr.tiering_entered:
@@ -363,7 +365,7 @@ class C07(SimSpec):
         main = scenarios(units=True, delays=True, min_obs=2, **kw)
         rej = with_rejection(scenarios(units=True, **kw))
         probe = scenarios(modes=('tiering',), min_obs=2, **kw)
-        return mix((6, main), (2, crowd(kw, delays=True)), (1, rej), (1, probe))
+        return mix((5, main), (2, crowd(kw, delays=True)), (1, scenarios(modes=('bandov',), **kw)), (1, rej), (1, probe))
 
     def violations(self, tr):
         out = O.C07(tr)
@@ -453,7 +455,7 @@ class C08(SimSpec):
                    (2, scenarios(max_obs=2, modes=('roomy',), max_nodes=2, max_machines=kw['max_machines'])),
                    (1, scenarios(min_obs=2, few_machines=True, **kw)),
                    (2, crowd(kw, min_obs=3, delays=True)),
-                   (2, limited(kw)), (2, tight(kw)),
+                   (2, limited(kw)), (2, tight(kw)), (2, scenarios(modes=('bandov',), **kw)),
                    (1, scenarios(unsorted=True, min_obs=2, **kw)),
                    (1, scenarios(min_obs=3, start_gaps=(0, 0, 1), **kw)))
 
@@ -728,7 +730,7 @@ class C17(SimSpec):
         return mix((3, scenarios(algs=('dynamic',), piled_plans=True, min_obs=2, delays=True, **kw)),
                    (1, crowd(kw, algs=('dynamic',), piled_plans=True, delays=True)),
                    # "however long that machine is kept busy by ingest": long observations holding planned machines
-                   (2, scenarios(algs=('dynamic',), piled_plans=True, min_obs=2, long_durations=True, few_machines=True,
+                   (3, scenarios(algs=('dynamic',), piled_plans=True, min_obs=2, long_durations=True, few_machines=True,
                                  modes=('roomy',), start_gaps=(0, 1, 2, 3), **kw)),
                    (1, scenarios(algs=('dynamic',), piled_plans=True, **kw)))
 
